@@ -21,6 +21,8 @@
    recovery_point                              recovery_idx
    compute_spike_features, one waveform        trace_features / features1
    compute_spike_features, a batch             batch_features (vectorised structure)
+   2-D / 3-D input (_validate_arr_in)          input, validate_arr_in, compute_spike_features
+   find_peak, pick_maxima (public), weights_spk_ch   find_peak, pick_maxima_pub, weights_spk_ch
    derived columns (ratio, durations, slopes)  d_* (numerator / denominator pairs)
 *)
 From Coq Require Import ZArith List Bool Lia.
@@ -286,6 +288,44 @@ Definition batch_features (k : nat) (ws : list (list (list (option Z)))) : optio
           sequence (map (fun hq => tail_stage k (fst (fst (fst hq))) (snd hq)) (combine hs qs'))
       end
   end.
+
+(* ---------- the public entry points ---------- *)
+(* _validate_arr_in: a 2-D array (time, traces) is one waveform: arr_in[np.newaxis, :, :]
+   (NaN -> 0 is denan_wav, applied per waveform where the samples are read) *)
+Inductive input :=
+| In2 (w : list (list (option Z)))              (* arr_in.ndim == 2 *)
+| In3 (ws : list (list (list (option Z)))).     (* (waveform, time, trace) *)
+Definition validate_arr_in (i : input) : list (list (list (option Z))) :=
+  match i with In2 w => [w] | In3 ws => ws end.
+
+(* compute_spike_features(arr_in, fs, recovery_duration_ms) with
+   k = int(round(recovery_duration_ms * fs / 1000)) *)
+Definition compute_spike_features (k : nat) (i : input) : option (list feats) :=
+  batch_features k (validate_arr_in i).
+
+(* find_peak: data frame rows (peak_trace_idx, peak_time_idx, peak_val) *)
+Definition find_peak1 (w : list (list (option Z))) : option (nat * nat * Z) :=
+  let cs := chans (denan_wav w) in
+  match pick_peak cs with
+  | Some (tr, pk) => Some (tr, pk, nth pk (nth tr cs []) 0)
+  | None => None
+  end.
+Definition find_peak (i : input) : option (list (nat * nat * Z)) :=
+  sequence (map find_peak1 (validate_arr_in i)).
+
+(* pick_maxima as a public function: per waveform, per trace (indx_maxs, max_vals) *)
+Definition pick_maxima_pub (i : input) : option (list (list (nat * Z))) :=
+  sequence (map (fun w => pick_maxima (chans (denan_wav w))) (validate_arr_in i)).
+
+(* weights_spk_ch(arr, "peak"): reshape_wav_one_channel turns every (waveform, trace)
+   into a single-trace waveform, find_peak gives its peak_val (the SIGNED sample at
+   the first largest |sample|), reshaped back to (waveform, trace) *)
+Definition weights1 (w : list (list (option Z))) : option (list Z) :=
+  sequence (map (fun ch => match argmax (map Z.abs ch) with
+                           | Some (i, _) => Some (nth i ch 0)
+                           | None => None end) (chans (denan_wav w))).
+Definition weights_spk_ch (ws : list (list (list (option Z)))) : option (list (list Z)) :=
+  sequence (map weights1 ws).
 
 (* ---------- derived columns (pure functions of the row) ---------- *)
 (* a ratio p/q is carried as the pair (p, q); q = 0 stands for the float
